@@ -20,12 +20,11 @@ def run(ck):
     ck.rule(C02.RULE + ' | C05 bias: 60% of the scripts fail, are cancelled or cannot be spawned')
     n = 40 if quick else 600
     batch = 40 if quick else 200
-    for b in range(0, n, batch):
-        hists = dict(('f%d' % i, incr.gen_history(ck.rng, 'faults')) for i in range(b, min(n, b + batch)))
-        incr.check_histories(ck, d, hists, 'f%d' % b, ('C05',))
-        vf.sh(['rm', '-rf', d + '/trees_f%d' % b])
+    batches = [('f%d' % b, dict(('f%d' % i, incr.gen_history(ck.rng, 'faults')) for i in range(b, min(n, b + batch))))
+               for b in range(0, n, batch)]
+    incr.check_histories_parallel(ck, d, batches, ('C05',))
     if quick:
-        incr.crash_check(ck, d, n_scenarios=4, offsets_mode='sample')
+        incr.crash_check(ck, d, n_scenarios=6, offsets_mode='sample')
     else:
         incr.crash_check(ck, d, n_scenarios=50, offsets_mode='all')
     incr.blackbox_c05(ck, d, thorough=not quick)
